@@ -363,6 +363,9 @@ class _Fn:
     def ident(self, name):
         if name in _LEAN_KEYWORDS or name.startswith("__") or not name.isidentifier() or not name.isascii():
             return name + "_"
+        if name == self.spec.name or name in ("ord",) or any(sp.name == name for sp in self.module_specs.values()) \
+                or any(o.name == name for o in self.spec.opaque):
+            return name + "_"        # a local must not shadow a translated function / the order / an opaque callee
         return name
 
     def fresh(self):
